@@ -131,6 +131,15 @@ def check_state(desc, sc, pats, flagsets, res):
                 res.n['evaluations'] += 1
                 if got_fd is None or sorted(got_fd) != sorted(got):
                     res.add_violation(ID, run.viol('dir_fd-differs', inp, sorted(got), got_fd if got_fd is None else sorted(got_fd)))
+                # ... and as bytes
+                with fsx.ScandirMonitor(HORIZON):
+                    try:
+                        got_b = sorted(os.fsdecode(x) for x in G.glob(os.fsencode(text), flags=fscommon.gflags(fs), root_dir=os.fsencode(sc.root)))
+                    except fsx.Horizon:
+                        got_b = None
+                res.n['evaluations'] += 1
+                if got_b != sorted(got):
+                    res.add_violation(ID, run.viol('bytes-differs', inp, sorted(got), got_b))
             # (a) reference
             try:
                 ref = refglob.ref_glob(model, ast, fl)
@@ -157,6 +166,15 @@ def check_state(desc, sc, pats, flagsets, res):
                 wr = sorted(c for c in cands if refglob.norm(c) in must and c not in acc)
                 wa = sorted(c for c in cands if refglob.norm(c) not in allowed and c in acc)
                 res.n['globmatch_candidates_checked'] += len(cands)
+                if len(text) % 2 == 1:
+                    # the matcher applies the same link rule when the root is a directory descriptor
+                    fd = os.open(sc.root, os.O_RDONLY | os.O_DIRECTORY)
+                    try:
+                        acc_fd = set(G.globfilter(cands, text, flags=fscommon.gflags(fs) | G.REALPATH, dir_fd=fd))
+                    finally:
+                        os.close(fd)
+                    if acc_fd != acc:
+                        res.add_violation(ID, run.viol('realpath-dir_fd-differs', inp, sorted(acc), sorted(acc_fd)))
                 if len(text) % 3 == 0:
                     # an exclude= argument that matches nothing must not change which paths are accepted
                     acc2 = set(G.globfilter(cands, text, flags=fscommon.gflags(fs) | G.REALPATH, root_dir=sc.root, exclude='zz*'))
@@ -282,6 +300,21 @@ def replay(v):
             return {'violates': got is None, 'observed': {'scandir_calls': len(mon.log)}}
         if got is None:
             return {'violates': True, 'observed': 'no termination'}
+        if k == 'bytes-differs':
+            got_b = sorted(os.fsdecode(x) for x in G.glob(os.fsencode(inp['pattern']), flags=fscommon.gflags(inp['flags']),
+                                                         root_dir=os.fsencode(sc.root)))
+            return {'violates': got_b != sorted(got), 'observed': got_b}
+        if k == 'realpath-dir_fd-differs':
+            from . import c04
+            cands = [c for c in c04.candidates(model, got) if not c.endswith('/') or model.isdir(c.rstrip('/'))]
+            fl = fscommon.gflags(inp['flags']) | G.REALPATH
+            a = set(G.globfilter(cands, inp['pattern'], flags=fl, root_dir=sc.root))
+            fd = os.open(sc.root, os.O_RDONLY | os.O_DIRECTORY)
+            try:
+                b = set(G.globfilter(cands, inp['pattern'], flags=fl, dir_fd=fd))
+            finally:
+                os.close(fd)
+            return {'violates': a != b, 'observed': sorted(b)}
         if k == 'dir_fd-differs':
             fd = os.open(sc.root, os.O_RDONLY | os.O_DIRECTORY)
             try:
